@@ -181,6 +181,8 @@ func guardCallCycles(E *guards.Engine, scope []*ssa.Function) []string {
 // parameter of a decoder root). The rule is built on the effects engine (E4).
 func c09NoInputWrite(c *Ctx) {
 	ruleNoInputWrite(c, "R3.no-input-write", nil)
+	// never hang: decoders take macPayloadMutex (and the application-layer registries' locks); no function may leave one locked
+	ruleNoLockLeak(c, "R5.no-lock-leak")
 }
 
 // dumpGuards: lwstatic dump guards [func-substring [all]]  — prints obligations and facts for debugging.
